@@ -569,6 +569,17 @@ func TestC16Constructors(t *testing.T) {
 		if err != nil {
 			rt.Fatalf("C16 violated: %s is valid but Error() = %v", call, err)
 		}
+		if family == "float" && byteSize == 4 {
+			// clamped means clamped for every reader: no accessor of an F4 item hands out a finite value
+			// beyond the F4 bound (not even one that the wire encoding would round back to it)
+			if fs, ferr := it.ToFloat(); ferr == nil {
+				for _, x := range fs {
+					if !math.IsInf(x, 0) && !math.IsNaN(x) && math.Abs(x) > math.MaxFloat32 {
+						rt.Fatalf("C16 violated: %s holds %v, which lies beyond the F4 bound %v: out-of-range values are clamped to the bound", call, x, float64(math.MaxFloat32))
+					}
+				}
+			}
+		}
 		for fam := 0; fam < 3; fam++ {
 			got, oerr := obs.Value(it, fam)
 			if oerr != nil {
